@@ -559,7 +559,20 @@ def gen_op(rng, wd: World, swarm, step, script):
                 return _with_fault(rng, wd, swarm, {"op": "run", "setup": si, "name": w["algs"][rng.choice(mem)]["name"]})
             return {"op": "run", "setup": si, "name": "nobody"}
         if k == "run_all":
-            return {"op": "run_all", "setup": si}
+            op = {"op": "run_all", "setup": si}
+            if swarm["faulty"] and mem and rng.random() < swarm["pfault"]:
+                # a numerical fault somewhere inside the loop over the members
+                order = [i for i in _expect_order(wd, si) if wd.st[i].has_params]
+                calls = []
+                for i in order:
+                    ent = wd.reference(i)
+                    calls += ent["calls"]
+                    if ent["exc"] is not None:
+                        break
+                if calls:
+                    kk = rng.randrange(len(calls))
+                    op["fault"] = {"kind": "num_exc", "call": kk, "exc": exc_for_site(calls[kk]), "site": calls[kk]}
+            return op
         if k == "mpe":
             if not mem:
                 continue
@@ -941,22 +954,49 @@ def _do_run(wd, op, step, before):
         wd.check_isolation(before, after, step, {})
         return "gate"
     if fired:
+        # relaxed, narrowly: the member that was executing when the fault fired may fail (its stored result then stays
+        # what it was) or - where pyOMA2 swallows the error by design - store a result that is not judged; every other
+        # member either completed (equals its isolated reference) or was not reached (unchanged). What is never
+        # acceptable: the call returns normally and leaves behind a result that belongs to other parameters or data.
         wd.inc("fault.fired.num_exc")
         outcome = "fault"
-        i = targets[0]
-        st = wd.st[i]
-        if rexc is not None:
-            if after["algs"][i]["result"] != before["algs"][i]["result"]:
-                wd.violate("fault.wrong_state", step,
-                           f"run of {w['algs'][i]['name']} raised {type(rexc).__name__} under an injected fault but its stored result changed", i)
-                return outcome
-            wd.inc("probe.fault_propagated")
-        else:
-            wd.inc("probe.swallowed_fault")
-            st.unknown = True  # that one result is not judged
-            st.ran = True
-            st.mpe = "unknown"
-        wd.check_isolation(before, after, step, {"result": {i}})
+        wd.inc("probe.fault_propagated" if rexc is not None else "probe.swallowed_fault")
+        if op["op"] == "run_all":
+            wd.inc("probe.fault_inside_run_all")
+        touched = set()
+        odd = []
+        for i in targets:
+            st = wd.st[i]
+            b_, a_ = before["algs"][i]["result"], after["algs"][i]["result"]
+            kind, val = exp[i]
+            if kind == "ok" and a_ == val:
+                if a_ != b_ or not st.ran:
+                    touched.add(i)
+                st.ran, st.mpe, st.unknown, st.mpe_args, st.stale = True, "no", False, None, False
+            elif a_ == b_:
+                if rexc is None and kind == "ok" and b_ is not None and len(targets) == 1:
+                    wd.violate("fault.wrong_state", step,
+                               f"the run of {w['algs'][i]['name']} hit a numerical failure, the call returned normally, and the "
+                               f"stored result is still the earlier one, which differs from what its current parameters and "
+                               f"data give", i)
+                    return outcome
+                continue
+            else:
+                odd.append(i)
+        if rexc is not None and odd:
+            i = odd[0]
+            wd.violate("fault.wrong_state", step,
+                       f"the call raised {type(rexc).__name__} under an injected fault, yet {w['algs'][i]['name']} now holds a result "
+                       f"that is neither its previous one nor that of a completed run", i)
+            return outcome
+        if len(odd) > 1:
+            wd.violate("fault.wrong_state", step, "one injected fault left more than one algorithm with an unexplained result", odd[1])
+            return outcome
+        for i in odd:
+            st = wd.st[i]
+            st.unknown, st.ran, st.mpe = True, True, "unknown"  # that one result is not judged
+            touched.add(i)
+        wd.check_isolation(before, after, step, {"result": touched})
         return outcome
     # fault-free: every target either ran (equals its reference) or the call stopped at it
     stopped = False
